@@ -266,6 +266,7 @@ func (r *recordIter) setIntColumnMeta(timeColVals *record.ColVal, idx int, rec *
 	var minV, maxV, minVTime, maxVTime, sumV, countV int64
 	var colIndex, lastIndex, firstIndex, minIndex, maxIndex int
 	nilCount := 0
+	var lastTime int64 // time of the last row that holds a value
 	colIndex = -1
 	lastIndex, firstIndex, minIndex, maxIndex = -1, -1, -1, -1
 	firstInit := false
@@ -302,9 +303,10 @@ func (r *recordIter) setIntColumnMeta(timeColVals *record.ColVal, idx int, rec *
 
 		sumV += cols[index-nilCount]
 		lastIndex = colIndex
+		lastTime = timeCol
 	}
 
-	rec.ColMeta[idx].SetLast(cols[lastIndex], timeCols[len(timeCols)-1])
+	rec.ColMeta[idx].SetLast(cols[lastIndex], lastTime)
 	rec.ColMeta[idx].SetMin(minV, minVTime)
 	rec.ColMeta[idx].SetMax(maxV, maxVTime)
 	rec.ColMeta[idx].SetCount(countV)
@@ -329,6 +331,7 @@ func (r *recordIter) setBoolColumnMeta(timeColVals *record.ColVal, idx int, rec 
 	var minV, maxV bool
 	var colIndex, lastIndex, firstIndex, minIndex, maxIndex int
 	nilCount := 0
+	var lastTime int64 // time of the last row that holds a value
 	lastIndex, firstIndex, minIndex, maxIndex = -1, -1, -1, -1
 
 	countV = 0
@@ -364,9 +367,10 @@ func (r *recordIter) setBoolColumnMeta(timeColVals *record.ColVal, idx int, rec 
 			maxIndex = index
 		}
 		lastIndex = colIndex
+		lastTime = timeCol
 	}
 
-	rec.ColMeta[idx].SetLast(cols[lastIndex], timeCols[len(timeCols)-1])
+	rec.ColMeta[idx].SetLast(cols[lastIndex], lastTime)
 	rec.ColMeta[idx].SetMin(minV, minVTime)
 	rec.ColMeta[idx].SetMax(maxV, maxVTime)
 	rec.ColMeta[idx].SetCount(countV)
@@ -390,6 +394,7 @@ func (r *recordIter) setFloatColumnMeta(timeColVals *record.ColVal, idx int, rec
 	var minV, maxV, sumV float64
 	var colIndex, lastIndex, firstIndex, minIndex, maxIndex int
 	nilCount := 0
+	var lastTime int64 // time of the last row that holds a value
 	colIndex = -1
 	lastIndex, firstIndex, minIndex, maxIndex = -1, -1, -1, -1
 	sumV = 0
@@ -427,9 +432,10 @@ func (r *recordIter) setFloatColumnMeta(timeColVals *record.ColVal, idx int, rec
 
 		sumV += cols[index-nilCount]
 		lastIndex = colIndex
+		lastTime = timeCol
 	}
 
-	rec.ColMeta[idx].SetLast(cols[lastIndex], timeCols[len(timeCols)-1])
+	rec.ColMeta[idx].SetLast(cols[lastIndex], lastTime)
 	rec.ColMeta[idx].SetMin(minV, minVTime)
 	rec.ColMeta[idx].SetMax(maxV, maxVTime)
 	rec.ColMeta[idx].SetCount(countV)
@@ -452,6 +458,7 @@ func (r *recordIter) setStringColumnMeta(timeColVals *record.ColVal, idx int, re
 
 	var colIndex, lastIndex, firstIndex int
 	nilCount := 0
+	var lastTime int64 // time of the last row that holds a value
 	colIndex = -1
 	lastIndex, firstIndex = -1, -1
 	var countV int64
@@ -469,9 +476,10 @@ func (r *recordIter) setStringColumnMeta(timeColVals *record.ColVal, idx int, re
 		}
 
 		lastIndex = colIndex
+		lastTime = timeCol
 	}
 
-	rec.ColMeta[idx].SetLast(cols[lastIndex], timeCols[len(timeCols)-1])
+	rec.ColMeta[idx].SetLast(cols[lastIndex], lastTime)
 	rec.ColMeta[idx].SetCount(countV)
 	setColValInAux(timeColVals, idx, ops, rec, -1, firstIndex, -1, lastIndex)
 }
